@@ -385,6 +385,75 @@ impl Space for Pairs {
     }
 }
 
+/// Adding N days: every day of whole years (common, leap, century, both range ends) x every N of a window.
+struct AddDays {
+    days: Vec<i64>,
+    ns: Vec<i64>,
+}
+impl AddDays {
+    fn new(tier: Tier) -> Self {
+        let mut days = vec![];
+        let years: &[i64] = match tier {
+            Tier::Quick => &[2023, 2024],
+            Tier::Thorough => &[-271_821, -1, 0, 1582, 1899, 1900, 1999, 2000, 2023, 2024, 2100, 275_760],
+        };
+        for y in years {
+            for e in days_from_civil(*y, 1, 1)..=days_from_civil(*y, 12, 31) {
+                if (MIN_DAY..=MAX_DAY).contains(&e) {
+                    days.push(e);
+                }
+            }
+        }
+        let w = tier.pick(70, 800);
+        let mut ns: Vec<i64> = (-w..=w).collect();
+        ns.extend([-146_097, -36_525, -1461, -1000, 1000, 1461, 36_525, 146_097]);
+        AddDays { days, ns }
+    }
+}
+impl Space for AddDays {
+    fn name(&self) -> String {
+        "c01.add_days".into()
+    }
+    fn len(&self) -> u64 {
+        self.days.len() as u64
+    }
+    fn block(&self) -> u64 {
+        8
+    }
+    fn eval(&self, i: u64, out: &mut Out) {
+        let e = self.days[i as usize];
+        let (y, m, d) = civil_from_days(e);
+        let Oc::Ok(date) = call(|| pd(y, m, d)) else {
+            out.fail("ctor", vec![("date", format!("{y}-{m}-{d}"))]);
+            return;
+        };
+        out.nontrivial += 1;
+        for n in &self.ns {
+            let attrs = || vec![("date", format!("{y:+05}-{m:02}-{d:02}")), ("n", n.to_string()), ("month", m.to_string()), ("day_plus_n", (d as i64 + n).to_string())];
+            let target = e + n;
+            let model = if (MIN_DAY..=MAX_DAY).contains(&target) { Ok(civil_from_days(target)) } else { Err(ErrorKind::Range) };
+            let same = |a: &(i64, u8, u8), b: &temporal_rs::PlainDate| (b.iso_year() as i64, b.iso_month(), b.iso_day()) == *a;
+            let Oc::Ok(dur) = call(|| date_dur(0, 0, 0, *n)) else { continue };
+            for ov in [None, Some(temporal_rs::options::ArithmeticOverflow::Reject)] {
+                let got = call(|| date.add(&dur, ov));
+                out.lockstep("add(N days)", &model, &got, same, attrs);
+            }
+            let Oc::Ok(neg) = call(|| date_dur(0, 0, 0, -*n)) else { continue };
+            let got = call(|| date.subtract(&neg, None));
+            out.lockstep("subtract(-N days)", &model, &got, same, attrs);
+            // N days written as weeks and days
+            if n % 7 != 0 || *n == 0 {
+                let Oc::Ok(wd) = call(|| date_dur(0, 0, n / 7, n % 7)) else { continue };
+                let got = call(|| date.add(&wd, None));
+                out.lockstep("add(N days as weeks and days)", &model, &got, same, attrs);
+            }
+        }
+    }
+    fn describe(&self) -> serde_json::Value {
+        json!({"days": self.days.len(), "n_values": self.ns.len()})
+    }
+}
+
 pub fn run(env: &Env) -> i32 {
     let mut rep = Report::new(
         env,
@@ -397,6 +466,7 @@ pub fn run(env: &Env) -> i32 {
     let walk = DayWalk { utc: TimeZone::try_from_str("+00:00").expect("utc"), local_pairs: if env.tier == Tier::Quick { &LOCAL_Q } else { &LOCAL_T }, full_everywhere: env.tier == Tier::Thorough };
     rep.run(&Edges);
     rep.run(&Years);
+    rep.run(&AddDays::new(env.tier));
     rep.run(&walk);
     if env.tier == Tier::Thorough || env.replay.is_some() {
         rep.run(&Pairs::new());
